@@ -267,7 +267,9 @@ CHECKS = {
        "the object is not a client or the interval is 0. EXPIRY EFFECTS, every state (Expiry): the PINGREQ-send timer requests a PINGREQ and arms "
        "the PINGRESP timer with the configured timeout; the PINGREQ-receive / PINGRESP-receive timers give the connection up (v3.1.1: exactly "
        "a close request; v5.0: DISCONNECT Keep Alive timeout if it fits, close, Disconnected). SERVER-SIDE RE-ARM: every notified packet of "
-       "every kind but CONNACK, PINGRESP and DISCONNECT resets the PINGREQ-receive timer with the timeout in force. On the model side nothing "
+       "every kind but CONNACK, PINGRESP and DISCONNECT resets the PINGREQ-receive timer with the timeout in force. THE PAIR (Conn/PairPing.v): "
+       "one keep-alive round between a client and a server endpoint - timer expiry, PINGREQ, automatic PINGRESP and watchdog re-arm, response "
+       "timer cancelled - with no error and no close request (C15_keep_alive_round). On the model side nothing "
        "is left to the monitor alone; the implementation is judged by the observer monitor and tied by the correspondence.",
   ref="DESIGN.md §3 C15",
   note=CONN_NOTE + " The observer of the monitor is built only from events and reported expiries; the flag comparison uses the hook.",
